@@ -206,6 +206,13 @@ def main(argv=None):
             else:
                 engine_defects.append("witness of case %s class %s: %s %s" % (job["case"]["name"], job["label"], out["outcome"], out.get("error") or ""))
 
+    try:
+        from sxl import crosscheck
+        xs_ok, xs_res = crosscheck.selftest()
+    except Exception as e:
+        xs_ok, xs_res = False, repr(e)
+    if not xs_ok:
+        problems.append("cross-check canaries failed (cvc5 through the SMT-LIB emitter): %r" % (xs_res,))
     for r in results:
         if r["status"] in ("inconclusive", "error"):
             problems.append("case %s: %s" % (r["case"], r["inconclusive"]))
@@ -257,8 +264,10 @@ def main(argv=None):
                        self_n if selfh is not None else None, wall, active_known)
     tot_o = sum(r["obligations"] for r in results)
     tot_d = sum(r["discharged"] for r in results)
-    print("%s %s: cases=%d paths=%d obligations=%d discharged=%d violations=%d known=%d inconclusive=%d wall=%.1fs -> exit %d" % (
-        prop, a.tier, len(results), sum(r["paths"] for r in results), tot_o, tot_d, len(violations), len(known_seen), len(problems), wall, rc))
+    xq = sum(r["stats"].get("xc_queries", 0) for r in results)
+    xa = sum(r["stats"].get("xc_agree", 0) for r in results)
+    print("%s %s: cases=%d paths=%d obligations=%d discharged=%d violations=%d known=%d inconclusive=%d crosscheck=%d/%d wall=%.1fs -> exit %d" % (
+        prop, a.tier, len(results), sum(r["paths"] for r in results), tot_o, tot_d, len(violations), len(known_seen), len(problems), xa, xq, wall, rc))
     return rc
 
 
@@ -270,7 +279,8 @@ def write_evidence(prop, tier, seed, mod, cases, results, violations, known_seen
     tot = lambda k: sum(r[k] for r in results)
     st_keys = ("decisions", "feasibility_queries", "xor_lemmas", "gauss", "free_queries", "assumed_feasible", "summary_paths",
                "concretizations", "aborted", "rt_sweeps", "rt_sweep_queries", "rt_mux", "rt_mux_linear", "rt_pred_if", "rt_ite",
-               "rt_choice", "rt_summaries", "rt_tabulations", "rt_lazy_calls")
+               "rt_choice", "rt_summaries", "rt_tabulations", "rt_lazy_calls", "gauss_obligations", "exact_fallbacks", "exact_retries",
+               "twin_timeouts")
     agg = {k: sum(r["stats"].get(k, 0) for r in results) for k in st_keys}
     solver_s = round(sum(r["stats"].get("solver_s", 0.0) for r in results), 2)
     samples = []
@@ -303,8 +313,18 @@ def write_evidence(prop, tier, seed, mod, cases, results, violations, known_seen
             outside_bounds=getattr(mod, "OUTSIDE", ""),
             per_case_bounds=sorted({r["bounds"] for r in results if r["bounds"]})[:40],
             functions_encoded=entered[:400], modules_encoded=modules,
-            solver="z3 %s (python API), affine-atom abstraction + Gauss-Jordan CEGAR" % _z3v(),
+            solver="z3 %s (python API), affine-atom abstraction + Gauss-Jordan CEGAR; cvc5 1.4.0 on a cross-check sample" % _z3v(),
             solver_time_s=solver_s, engine_counters=agg,
+            cross_check=dict(
+                what=("sample of discharged obligations re-decided by cvc5 1.4.0 on the EXACT bit-level encoding, written as SMT-LIB2 by an "
+                      "emitter independent of the z3 translation, the affine-atom abstraction and the Gauss-Jordan layer (sxl/crosscheck.py); "
+                      "a 'sat' from cvc5 on an obligation z3 discharged makes the run inconclusive"),
+                queries=sum(r["stats"].get("xc_queries", 0) for r in results),
+                agree_unsat=sum(r["stats"].get("xc_agree", 0) for r in results),
+                cvc5_undecided_in_budget=sum(r["stats"].get("xc_undecided", 0) for r in results),
+                disagreements=0 if not any("solver disagreement" in (p or "") for p in problems) else sum("solver disagreement" in p for p in problems),
+                largest_cone_and_nodes=max([r["stats"].get("xc_max_nodes", 0) for r in results] or [0]),
+                cvc5_time_s=round(sum(r["stats"].get("xc_s", 0.0) for r in results), 2)),
             vacuity_witnesses=dict(found=sum(len(r["covers"]) for r in results), replayed_on_real_code=wit_n, replay_ok=wit_ok,
                                    missing=[(r["case"], r["missing_covers"]) for r in results if r["missing_covers"]][:20]),
             traces_validated_against_impl=wit_ok,
